@@ -276,31 +276,26 @@ func DirectiveState(l *lexer) stateFn {
 }
 
 func DirectiveOtherState(l *lexer) stateFn {
-	if l.acceptOnlyAlphaWord("type") {
+	// exactly one directive word follows the '%': a symbol that comes next and
+	// happens to be called left, right, prec, start ... is an ordinary name
+	switch {
+	case l.acceptOnlyAlphaWord("type"):
 		l.emit(TypeDirective)
-	}
-	if l.acceptOnlyAlphaWord("token") {
+	case l.acceptOnlyAlphaWord("token"):
 		l.emit(TokenDirective)
-	}
-	if l.acceptOnlyAlphaWord("union") {
+	case l.acceptOnlyAlphaWord("union"):
 		return DirectiveUnionState
-	}
-	if l.acceptOnlyAlphaWord("left") {
+	case l.acceptOnlyAlphaWord("left"):
 		l.emit(LeftAssoc)
-	}
-	if l.acceptOnlyAlphaWord("right") {
+	case l.acceptOnlyAlphaWord("right"):
 		l.emit(RightAssoc)
-	}
-	if l.acceptOnlyAlphaWord("nonassoc") {
+	case l.acceptOnlyAlphaWord("nonassoc"):
 		l.emit(NoneAssoc)
-	}
-	if l.acceptOnlyAlphaWord("prec") {
+	case l.acceptOnlyAlphaWord("prec"):
 		l.emit(PrecDirective)
-	}
-	if l.acceptOnlyAlphaWord("precedence") {
+	case l.acceptOnlyAlphaWord("precedence"):
 		l.emit(Precedence)
-	}
-	if l.acceptOnlyAlphaWord("start") {
+	case l.acceptOnlyAlphaWord("start"):
 		l.emit(StartDirective)
 	}
 	return rootState
